@@ -463,6 +463,11 @@ def check_vtu(ctx, work, written_case, tags, rep, in_model=True):
         ctx.mismatch(slim, describe_diff(mback, back) if mback is not None else "model read-back fails",
                      "Fc.W.readVtu (Fc.W.writeVtu F)",
                      what="implementation read-back differs from the model's read-back of the model-written file")
+    elif list(mback["cells"]) != list(back["cells"]):
+        # the ORDER of the cell types of the read mesh is not part of the property (compared as a mapping above),
+        # but the model fixes it (`np.unique` = ascending VTK id, theorem C13_unique_order): keep model and code tied
+        ctx.mismatch(slim, list(back["cells"]), list(mback["cells"]),
+                     what="order of the cell types of the read mesh differs from the model (np.unique order)")
     ctx.dist["vtu-readback-compared-with-model-readback"] += 1
     mf = parse_file(rep["file"])
     if mf is None:
